@@ -272,7 +272,10 @@ def main():
             continue
         try:
             req = json.loads(line)
-            res = handle(R, N, req)
+            if req.get("op") == "ping":
+                res = {"ok": True, "where": "ping"}
+            else:
+                res = handle(R, N, req)
         except Exception as e:
             res = {"ok": False, "where": "driver", "exc": "%s: %s" % (type(e).__name__, e), "trace": traceback.format_exc()[-1500:]}
         out.write(json.dumps(res) + "\n")
